@@ -324,7 +324,14 @@ def run(ctx):
     rd = [g for g in regs if g["cb"] is not None and prog.resolve_callable(eb, g["cb"]) is not None]
     again = any(any(prog.resolve_call(prog.resolve_callable(eb, g["cb"]), c) in starters for c in calls_in(prog.resolve_callable(eb, g["cb"])))
                 or any(sg is prog.resolve_callable(eb, g["cb"]) for sg, sn, so in sites) for g in rd)
-    r.check(again, "%s#retries" % eb.qname, "the delayed call does not try to connect again", where(eb, eb.node),
+    # ... on every path: once the back-off Deferred is what `connector` holds, the callback that goes on (or ends the loop
+    # and clears `connector`) is attached to it - a return in between leaves a handle that never does anything and never
+    # goes away, and makeRequest only connects when there is none
+    reg_nodes = [n.id for n in ce.nodes if any(call_name(c) in ("addCallback", "addBoth", "addCallbacks") and c.args and
+                                                prog.resolve_callable(eb, c.args[0]) is not None for c in n.calls())]
+    wired = bool(kept) and bool(reg_nodes) and all(n.id in reg_nodes or not ce.normal_exits_from(n.id, avoid=reg_nodes) for n, _o in kept)
+    r.check(again and wired, "%s#retries" % eb.qname, "the delayed call does not try to connect again (on some path the back-off Deferred kept in "
+            "`connector` gets no callback)" if again else "the delayed call does not try to connect again", where(eb, eb.node),
             "one failed attempt and the client stays disconnected with requests pending")
     cc = ctx.cfg(cb)
     z = [n for n in cc.nodes if getattr(node_assign_value(n, "_failures"), "value", None) == 0]
